@@ -1,15 +1,16 @@
 #!/bin/sh
 # usage: intake.sh <name>   - confirm a sub-agent's seeded change (/tmp/wt-out/<name>), store it, remove the agent's worktree, run the related quick checks
 name=$1
-/verif/tools/confirm_seeded.sh $name /tmp/wt-out/$name 2>&1 | tail -1
+root=$(cd "$(dirname "$0")/.." && pwd)
+$root/tools/confirm_seeded.sh $name /tmp/wt-out/$name 2>&1 | tail -1
 git -C /repo worktree remove --force /tmp/wt/$name 2>/dev/null
-[ -d /verif/seeded/$name ] || exit 1
-rel=$(/venv/bin/python - "$name" <<'PY'
+[ -d $root/seeded/$name ] || exit 1
+rel=$(/venv/bin/python - "$name" "$root" <<'PY'
 import sys, re
-src = open('/verif/tools/mutant_matrix.py').read()
+src = open(sys.argv[2] + '/tools/mutant_matrix.py').read()
 ns = {}
 exec(src[src.index('RELATED = {'):src.index('\n\n\ndef main')], ns)
 print(' '.join(ns['RELATED'][sys.argv[1][:3]]))
 PY
 )
-/verif/tools/try_mutant.sh $name $rel 2>&1 | grep -v "^VIOLATION" | cut -c1-260
+$root/tools/try_mutant.sh $name $rel 2>&1 | grep -v "^VIOLATION" | cut -c1-260
